@@ -60,6 +60,52 @@ pub use item_definition::ItemDefinitionEvaluator;
 pub use item_definition_context::ItemDefinitionContextEvaluator;
 pub use item_definition_type::ItemDefinitionTypeEvaluator;
 
+/// Checks that no decision, business knowledge model or decision service requires itself,
+/// directly or through its information and knowledge requirements (for decision services:
+/// through their output and encapsulated decisions); requirements are followed recursively
+/// when evaluators are built and evaluated, so such a model could never be evaluated.
+pub fn check_requirements(definitions: &dmntk_model::model::Definitions) -> Result<()> {
+  use dmntk_model::model::DmnElement;
+  use std::collections::HashMap;
+  let mut graph: HashMap<String, (String, Vec<String>)> = HashMap::new();
+  for decision in definitions.decisions() {
+    if let Some(id) = decision.id() {
+      let mut required: Vec<String> = vec![];
+      required.extend(decision.information_requirements().iter().filter_map(|r| r.required_decision().as_ref().map(|href| href.into())));
+      required.extend(decision.knowledge_requirements().iter().filter_map(|r| r.required_knowledge().as_ref().map(|href| href.into())));
+      graph.insert(id.clone(), (decision.name().to_string(), required));
+    }
+  }
+  for business_knowledge_model in definitions.business_knowledge_models() {
+    if let Some(id) = business_knowledge_model.id() {
+      let required = business_knowledge_model.knowledge_requirements().iter().filter_map(|r| r.required_knowledge().as_ref().map(|href| href.into())).collect();
+      graph.insert(id.clone(), (business_knowledge_model.name().to_string(), required));
+    }
+  }
+  for decision_service in definitions.decision_services() {
+    if let Some(id) = decision_service.id() {
+      let required = decision_service.output_decisions().iter().chain(decision_service.encapsulated_decisions().iter()).map(|href| href.into()).collect();
+      graph.insert(id.clone(), (decision_service.name().to_string(), required));
+    }
+  }
+  for (start, (name, required)) in &graph {
+    let mut visited: Vec<&str> = vec![];
+    let mut pending: Vec<&str> = required.iter().map(|s| s.as_str()).collect();
+    while let Some(id) = pending.pop() {
+      if id == start {
+        return Err(err_cyclic_requirements(name));
+      }
+      if !visited.contains(&id) {
+        visited.push(id);
+        if let Some((_, required)) = graph.get(id) {
+          pending.extend(required.iter().map(|s| s.as_str()));
+        }
+      }
+    }
+  }
+  Ok(())
+}
+
 ///
 pub fn information_item_type(type_ref: &str, evaluator: &ItemDefinitionTypeEvaluator) -> Option<FeelType> {
   if let Some(feel_type) = type_ref_to_feel_type(type_ref) {
